@@ -105,12 +105,12 @@ theorem avail_enter {files : List Path} {s : St} {p : Path} (hnone : s.cache p =
 
 /-- the part of `run_import` that does not execute anything: either the result, or the module that
 has to be executed -/
-def importPlan (cfg : Cfg) (fs : FS) (fr : Frame) (name : Name) (s : St) :
+def importPlan (cfg : Cfg) (fs : FS) (fr : Frame) (name : Ref) (s : St) :
     Sum (Except Err V × St) (Path × St) :=
-  match nonLocal cfg fr s name with
+  match importHit cfg fr s name with
   | some v => .inl (.ok v, s)
   | none =>
-    match findModule fs fr.dir name with
+    match findModule cfg fs fr.dir name with
     | none => .inl (.error .notFound, s)
     | some p =>
       match compileModule fs p s with
@@ -121,17 +121,17 @@ def importPlan (cfg : Cfg) (fs : FS) (fr : Frame) (name : Name) (s : St) :
         | some (.done _), true => .inl (.ok (.mref p), s1)
         | _, _ => .inr (p, s1)
 
-theorem runImport_plan (cfg : Cfg) (fs : FS) (rec : Runner) (fr : Frame) (name : Name) (s : St) :
+theorem runImport_plan (cfg : Cfg) (fs : FS) (rec : Runner) (fr : Frame) (name : Ref) (s : St) :
     runImport cfg fs rec fr name s =
       (match importPlan cfg fs fr name s with
        | .inl r => some r
        | .inr (p, s1) => loadModule fs rec p s1) := by
   unfold runImport importPlan
-  cases nonLocal cfg fr s name with
+  cases importHit cfg fr s name with
   | some v => rfl
   | none =>
     dsimp only
-    cases findModule fs fr.dir name with
+    cases findModule cfg fs fr.dir name with
     | none => rfl
     | some p =>
       dsimp only
@@ -147,30 +147,17 @@ theorem runImport_plan (cfg : Cfg) (fs : FS) (rec : Runner) (fr : Frame) (name :
           | inProgress => rfl
           | done e => cases b <;> rfl
 
-theorem findModule_some {fs : FS} {dir : List Name} {n : Name} {p : Path}
-    (h : findModule fs dir n = some p) : fs p ≠ none := by
-  unfold findModule at h
-  split at h
-  · rename_i hh
-    simp only [Option.some.injEq] at h; subst h
-    intro hc; rw [hc] at hh; cases hh
-  · split at h
-    · rename_i hh
-      simp only [Option.some.injEq] at h; subst h
-      intro hc; rw [hc] at hh; cases hh
-    · cases h
-
-theorem importPlan_inr {cfg : Cfg} {fs : FS} {fr : Frame} {name : Name} {s s1 : St} {p : Path}
+theorem importPlan_inr {cfg : Cfg} {fs : FS} {fr : Frame} {name : Ref} {s s1 : St} {p : Path}
     (h : importPlan cfg fs fr name s = .inr (p, s1)) :
-    ∃ b, findModule fs fr.dir name = some p ∧ compileModule fs p s = some (b, s1)
+    ∃ b, findModule cfg fs fr.dir name = some p ∧ compileModule fs p s = some (b, s1)
       ∧ s1.cache p ≠ some .inProgress ∧ (∀ e, s1.cache p = some (.done e) → b = false) := by
   unfold importPlan at h
-  cases hnl : nonLocal cfg fr s name with
+  cases hnl : importHit cfg fr s name with
   | some v => rw [hnl] at h; cases h
   | none =>
     rw [hnl] at h
     dsimp only at h
-    cases hfm : findModule fs fr.dir name with
+    cases hfm : findModule cfg fs fr.dir name with
     | none => rw [hfm] at h; cases h
     | some q =>
       rw [hfm] at h
@@ -218,7 +205,7 @@ theorem agree_loadModule {fs : FS} {files : List Path} {K : Nat} {rec rec' : Run
     cases r1 <;> exact ⟨rfl, by simp⟩
 
 theorem agree_runImport {cfg : Cfg} {fs : FS} {files : List Path} {K : Nat} {rec rec' : Runner}
-    (hfiles : ∀ p, fs p ≠ none → p ∈ files) (ha : Agree files K rec rec') {fr : Frame} {name : Name}
+    (hfiles : ∀ dir r p, findModule cfg fs dir r = some p → p ∈ files) (ha : Agree files K rec rec') {fr : Frame} {name : Ref}
     {s : St} (hinv : Inv s) (hav : avail files s ≤ K) :
     runImport cfg fs rec fr name s = runImport cfg fs rec' fr name s
       ∧ runImport cfg fs rec fr name s ≠ none := by
@@ -241,22 +228,22 @@ theorem agree_runImport {cfg : Cfg} {fs : FS} {files : List Path} {K : Nat} {rec
           have hb := hnd e hcp
           have := hinv.loaded p e (by rw [← hc]; exact hcp)
           rw [hfalse hb] at this; cases this
-    exact agree_loadModule ha inv1 hnone (hfiles p (findModule_some hfm))
+    exact agree_loadModule ha inv1 hnone (hfiles _ _ p hfm)
       (by rw [avail_eq_of_rel rel1]; exact hav)
 
 section plumbing
 variable {cfg : Cfg} {fs : FS} {files : List Path} {K : Nat} {rec rec' : Runner}
 
-theorem agree_importRoot (hfiles : ∀ p, fs p ≠ none → p ∈ files) (ha : Agree files K rec rec')
-    {fr : Frame} {m : Name} {s : St} (hinv : Inv s) (hav : avail files s ≤ K) :
+theorem agree_importRoot (hfiles : ∀ dir r p, findModule cfg fs dir r = some p → p ∈ files) (ha : Agree files K rec rec')
+    {fr : Frame} {m : Ref} {s : St} (hinv : Inv s) (hav : avail files s ≤ K) :
     importRoot cfg fs rec fr m s = importRoot cfg fs rec' fr m s
       ∧ importRoot cfg fs rec fr m s ≠ none := by
   unfold importRoot
-  cases lookup m fr.locals with
+  cases (if m.str then none else lookup m.name fr.locals) with
   | some v => exact ⟨rfl, by simp⟩
   | none => exact agree_runImport hfiles ha hinv hav
 
-theorem agree_importItems (hfiles : ∀ p, fs p ≠ none → p ∈ files) (hs : RecSound rec)
+theorem agree_importItems (hfiles : ∀ dir r p, findModule cfg fs dir r = some p → p ∈ files) (hs : RecSound rec)
     (ha : Agree files K rec rec') (items : List Item) :
     ∀ (fr : Frame) (s : St), Inv s → avail files s ≤ K →
     importItems cfg fs rec items fr s = importItems cfg fs rec' items fr s
@@ -265,10 +252,10 @@ theorem agree_importItems (hfiles : ∀ p, fs p ≠ none → p ∈ files) (hs : 
   | nil => intro fr s _ _; exact ⟨rfl, by simp [importItems]⟩
   | cons it rest ih =>
     intro fr s hinv hav
-    obtain ⟨he, hn⟩ := agree_importRoot (cfg := cfg) (m := it.name) (fr := fr) hfiles ha hinv hav
+    obtain ⟨he, hn⟩ := agree_importRoot (cfg := cfg) (m := it.toRef) (fr := fr) hfiles ha hinv hav
     simp only [importItems]
     rw [← he]
-    cases hx : importRoot cfg fs rec fr it.name s with
+    cases hx : importRoot cfg fs rec fr it.toRef s with
     | none => exact absurd hx hn
     | some res =>
       obtain ⟨r1, s1⟩ := res
@@ -277,11 +264,11 @@ theorem agree_importItems (hfiles : ∀ p, fs p ≠ none → p ∈ files) (hs : 
       | ok v =>
         dsimp only
         have h1 := sound_importRoot hs hx
-        have h2 := h1.trans (sound_exportIf fr.exportTop (it.exportKey cfg.exportAlias) v s1)
+        have h2 := h1.trans (sound_exportItem fr.exportTop cfg.exportAlias cfg.exportStrAlias it v s1)
         obtain ⟨inv2, rel2⟩ := h2 hinv
         exact ih _ _ inv2 (by rw [avail_eq_of_rel rel2]; exact hav)
 
-theorem agree_execAct (hfiles : ∀ p, fs p ≠ none → p ∈ files) (hs : RecSound rec)
+theorem agree_execAct (hfiles : ∀ dir r p, findModule cfg fs dir r = some p → p ∈ files) (hs : RecSound rec)
     (ha : Agree files K rec rec') (a : Act) (fr : Frame) (s : St) (hinv : Inv s)
     (hav : avail files s ≤ K) :
     execAct cfg fs rec a fr s = execAct cfg fs rec' a fr s ∧ execAct cfg fs rec a fr s ≠ none := by
@@ -311,7 +298,7 @@ theorem agree_execAct (hfiles : ∀ p, fs p ≠ none → p ∈ files) (hs : RecS
       cases r1 <;> exact ⟨rfl, by simp⟩
   | fromAll m =>
     simp only [execAct]
-    cases hl : lookup m fr.locals with
+    cases hl : (if m.str then none else lookup m.name fr.locals) with
     | some v =>
       dsimp only
       refine ⟨rfl, ?_⟩
@@ -349,7 +336,7 @@ theorem agree_execAct (hfiles : ∀ p, fs p ≠ none → p ∈ files) (hs : RecS
     simp only [execAct]
     cases evalRhs cfg fr s rhs <;> simp
 
-theorem agree_execActs (hfiles : ∀ p, fs p ≠ none → p ∈ files) (hs : RecSound rec)
+theorem agree_execActs (hfiles : ∀ dir r p, findModule cfg fs dir r = some p → p ∈ files) (hs : RecSound rec)
     (ha : Agree files K rec rec') (acts : List Act) :
     ∀ (fr : Frame) (s : St), Inv s → avail files s ≤ K →
     execActs cfg fs rec acts fr s = execActs cfg fs rec' acts fr s
@@ -372,7 +359,7 @@ theorem agree_execActs (hfiles : ∀ p, fs p ≠ none → p ∈ files) (hs : Rec
         obtain ⟨inv1, rel1⟩ := sound_execAct hs hx hinv
         exact ih fr1 s1 inv1 (by rw [avail_eq_of_rel rel1]; exact hav)
 
-theorem agree_runFn (hfiles : ∀ p, fs p ≠ none → p ∈ files) (hs : RecSound rec)
+theorem agree_runFn (hfiles : ∀ dir r p, findModule cfg fs dir r = some p → p ∈ files) (hs : RecSound rec)
     (ha : Agree files K rec rec') (c : Closure) (s : St) (hinv : Inv s) (hav : avail files s ≤ K) :
     runFn cfg fs rec c s = runFn cfg fs rec' c s ∧ runFn cfg fs rec c s ≠ none := by
   obtain ⟨he, hn⟩ := agree_execActs (cfg := cfg) hfiles hs ha (Act.print c.marker :: c.body)
@@ -384,7 +371,7 @@ theorem agree_runFn (hfiles : ∀ p, fs p ≠ none → p ∈ files) (hs : RecSou
   | none => exact absurd hx hn
   | some res => exact ⟨rfl, by simp⟩
 
-theorem agree_execTAct (hfiles : ∀ p, fs p ≠ none → p ∈ files) (hs : RecSound rec)
+theorem agree_execTAct (hfiles : ∀ dir r p, findModule cfg fs dir r = some p → p ∈ files) (hs : RecSound rec)
     (ha : Agree files K rec rec') (a : TAct) (fr : Frame) (s : St) (hinv : Inv s)
     (hav : avail files s ≤ K) :
     execTAct cfg fs rec a fr s = execTAct cfg fs rec' a fr s ∧ execTAct cfg fs rec a fr s ≠ none := by
@@ -393,7 +380,7 @@ theorem agree_execTAct (hfiles : ∀ p, fs p ≠ none → p ∈ files) (hs : Rec
   | defMain mk body => exact ⟨rfl, by simp [execTAct]⟩
   | defTest n mk body => exact ⟨rfl, by simp [execTAct]⟩
 
-theorem agree_execTActs (hfiles : ∀ p, fs p ≠ none → p ∈ files) (hs : RecSound rec)
+theorem agree_execTActs (hfiles : ∀ dir r p, findModule cfg fs dir r = some p → p ∈ files) (hs : RecSound rec)
     (ha : Agree files K rec rec') (acts : List TAct) :
     ∀ (fr : Frame) (s : St), Inv s → avail files s ≤ K →
     execTActs cfg fs rec acts fr s = execTActs cfg fs rec' acts fr s
@@ -416,7 +403,7 @@ theorem agree_execTActs (hfiles : ∀ p, fs p ≠ none → p ∈ files) (hs : Re
         obtain ⟨inv1, rel1⟩ := sound_execTAct hs hx hinv
         exact ih fr1 s1 inv1 (by rw [avail_eq_of_rel rel1]; exact hav)
 
-theorem agree_runTests (hfiles : ∀ p, fs p ≠ none → p ∈ files) (hs : RecSound rec)
+theorem agree_runTests (hfiles : ∀ dir r p, findModule cfg fs dir r = some p → p ∈ files) (hs : RecSound rec)
     (ha : Agree files K rec rec') (ts : List (Name × Closure)) :
     ∀ (s : St), Inv s → avail files s ≤ K →
     runTests cfg fs rec ts s = runTests cfg fs rec' ts s ∧ runTests cfg fs rec ts s ≠ none := by
@@ -439,7 +426,7 @@ theorem agree_runTests (hfiles : ∀ p, fs p ≠ none → p ∈ files) (hs : Rec
         obtain ⟨inv1, rel1⟩ := sound_runFn hs hx hinv
         exact ih s1 inv1 (by rw [avail_eq_of_rel rel1]; exact hav)
 
-theorem agree_runMain (hfiles : ∀ p, fs p ≠ none → p ∈ files) (hs : RecSound rec)
+theorem agree_runMain (hfiles : ∀ dir r p, findModule cfg fs dir r = some p → p ∈ files) (hs : RecSound rec)
     (ha : Agree files K rec rec') (s : St) (hinv : Inv s) (hav : avail files s ≤ K) :
     runMain cfg fs rec s = runMain cfg fs rec' s ∧ runMain cfg fs rec s ≠ none := by
   unfold runMain
@@ -447,7 +434,7 @@ theorem agree_runMain (hfiles : ∀ p, fs p ≠ none → p ∈ files) (hs : RecS
   | none => exact ⟨rfl, by simp⟩
   | some c => exact agree_runFn hfiles hs ha c s hinv hav
 
-theorem agree_afterTop (hfiles : ∀ p, fs p ≠ none → p ∈ files) (hs : RecSound rec)
+theorem agree_afterTop (hfiles : ∀ dir r p, findModule cfg fs dir r = some p → p ∈ files) (hs : RecSound rec)
     (ha : Agree files K rec rec') (tests : Bool) (s : St) (hinv : Inv s) (hav : avail files s ≤ K) :
     afterTop cfg fs rec tests s = afterTop cfg fs rec' tests s ∧ afterTop cfg fs rec tests s ≠ none := by
   unfold afterTop
@@ -470,7 +457,7 @@ theorem agree_afterTop (hfiles : ∀ p, fs p ≠ none → p ∈ files) (hs : Rec
         obtain ⟨inv1, rel1⟩ := sound_runTests hs _ hx hinv
         exact agree_runMain hfiles hs ha s1 inv1 (by rw [avail_eq_of_rel rel1]; exact hav)
 
-theorem agree_runBody (hfiles : ∀ p, fs p ≠ none → p ∈ files) (hs : RecSound rec)
+theorem agree_runBody (hfiles : ∀ dir r p, findModule cfg fs dir r = some p → p ∈ files) (hs : RecSound rec)
     (ha : Agree files K rec rec') (tests : Bool) (fr : Frame) (body : List TAct) (s : St)
     (hinv : Inv s) (hav : avail files s ≤ K) :
     runBody cfg fs rec tests fr body s = runBody cfg fs rec' tests fr body s
@@ -493,7 +480,7 @@ end plumbing
 
 /-- all fuels above the number of available files agree, and suffice -/
 theorem runUnit_adequate (cfg : Cfg) (fs : FS) (files : List Path)
-    (hfiles : ∀ p, fs p ≠ none → p ∈ files) :
+    (hfiles : ∀ dir r p, findModule cfg fs dir r = some p → p ∈ files) :
     ∀ K n m, K < n → K < m → Agree files (K + 1) (runUnit cfg fs n) (runUnit cfg fs m) := by
   intro K
   induction K with
@@ -517,7 +504,7 @@ theorem avail_le_length (files : List Path) (s : St) : avail files s ≤ files.l
   List.countP_le_length
 
 theorem hostRun_adequate (cfg : Cfg) (fs : FS) (files : List Path)
-    (hfiles : ∀ p, fs p ≠ none → p ∈ files) (n m : Nat) (hn : files.length < n) (hm : files.length < m)
+    (hfiles : ∀ dir r p, findModule cfg fs dir r = some p → p ∈ files) (n m : Nat) (hn : files.length < n) (hm : files.length < m)
     (op : Op) (s : St) (hinv : Inv s) :
     hostRun cfg fs n op s = hostRun cfg fs m op s ∧ hostRun cfg fs n op s ≠ none := by
   unfold hostRun
@@ -526,7 +513,7 @@ theorem hostRun_adequate (cfg : Cfg) (fs : FS) (files : List Path)
     (by have := avail_le_length files s; omega)
 
 theorem runOps_adequate (cfg : Cfg) (fs : FS) (files : List Path)
-    (hfiles : ∀ p, fs p ≠ none → p ∈ files) (n m : Nat) (hn : files.length < n) (hm : files.length < m)
+    (hfiles : ∀ dir r p, findModule cfg fs dir r = some p → p ∈ files) (n m : Nat) (hn : files.length < n) (hm : files.length < m)
     (ops : List Op) : ∀ (s : St), Inv s →
     runOps cfg fs n ops s = runOps cfg fs m ops s ∧ runOps cfg fs n ops s ≠ none := by
   induction ops with
